@@ -206,7 +206,10 @@ def f2_random(rng, n):
 
 
 def run_f2(m, sd: SeqDir, case):
-    """-> (observation, facts, the case in the shape `c15.check_file` / `c15.enc_file` read)"""
+    """-> (observation, facts, the case in the shape `c15.check_file` / `c15.enc_file` read).
+    `prior` (attached to a reported case): the case that used the same paths immediately before - run first, result ignored"""
+    if case.get("prior"):
+        run_f2(m, sd, {k: v for k, v in case["prior"].items() if k != "prior"})
     sd.wipe()
     res = case["res"]
     a = write_pvd(sd, "res.pvd", res)
@@ -241,6 +244,7 @@ def part_F2(ctx, m):
         sd.close()
     lines = [m.enc_file(view, facts) for _, facts, view in obs]
     reps = ctx.lean(lines) if ctx.driver_ok else [None] * len(cases)
+    prev = None
     for (tag, c), (got, facts, view), rep, line in zip(cases, obs, reps, lines):
         nres, nref = len(view["res"]), len(view["ref"])
         ctx.case(("F2", line, repr(c)), nontrivial=True,
@@ -249,7 +253,9 @@ def part_F2(ctx, m):
                        "F2-n>10" if max(nres, nref) > 10 else "F2-n<=10", f"F2-exit-{got['exit']}"]
                  + (["F2-cwd-relative"] if c.get("cwd") else []) + (["F2-same-file-both-roles"] if c.get("same_file") else []),
                  sample=None)
-        check_f2(ctx, m, c, got, facts, view, rep)
+        # a reported case names its predecessor on the same paths, so that the replay is self-contained
+        check_f2(ctx, m, dict(c, prior=prev) if prev is not None else c, got, facts, view, rep)
+        prev = c
 
 
 def check_f2(ctx, m, c, got, facts, view, rep):
@@ -283,12 +289,25 @@ def _xdmf_write(name, n, devs, fmt, offset=0):
 _xfact = {}
 
 
+def _xdmf_single(name, dev: bool):
+    """a NON-temporal .xdmf file (one data set) carrying the data of step 0"""
+    import meshio
+    import numpy as np
+    u = np.array([0.25 * k for k in range(4)])
+    if dev:
+        u[1] += 0.5
+    meshio.Mesh(np.array([[0.0, 0.0], [1.0, 0.0], [1.0, 1.0], [0.0, 1.0]]), [("quad", np.array([[0, 1, 2, 3]]))],
+                point_data={"u": u}, cell_data={"step": [np.array([0.0])]}).write(name)
+
+
 def xdmf_fact(m, fmt, da: bool, db: bool) -> bool:
-    key = (fmt, da, db)
+    """external fact: does the comparison of ONE step with / without the deviation pass?  measured with the CLI on two
+    single (non-temporal) data sets carrying the same values - not through the sequence machinery under test"""
+    key = (da, db)
     if key not in _xfact:
-        _xdmf_write("fa.xdmf", 1, {0} if da else set(), fmt)
-        _xdmf_write("fb.xdmf", 1, {0} if db else set(), fmt)
-        rc, _ = m.run_cli(["file", "fa.xdmf", "fb.xdmf"])
+        _xdmf_single("fa_single.xdmf", da)
+        _xdmf_single("fb_single.xdmf", db)
+        rc, _ = m.run_cli(["file", "fa_single.xdmf", "fb_single.xdmf"])
         _xfact[key] = (rc == 0)
     return _xfact[key]
 
